@@ -89,6 +89,7 @@ pub fn substitute(fam: u64, p: &Plain) -> Plain {
 /// of its source and target nodes), the image diagram whose interfaces list the expanded source and
 /// target nodes in order.
 pub fn substitute_with(p: &Plain, obj: &dyn Fn(T) -> Vec<T>, image: &dyn Fn(&PEdge, &[T], &[T]) -> Plain) -> Plain {
+    let p = &compact(p);
     // node blocks
     let blocks: Vec<Vec<T>> = p.lab.iter().map(|l| obj(*l)).collect();
     let sizes: Vec<usize> = blocks.iter().map(|b| b.len()).collect();
